@@ -832,6 +832,7 @@ struct LifecycleEngine : Engine
 	{
 		Plan p;
 		p.cfg["max_boundaries"] = tier ? 160 : 50; // boundaries enumerated per scenario (stride-sampled beyond)
+		p.cfg["step_budget"] = tier ? 8000000 : 3000000; // handler executions per scenario, all sub-executions together
 		bool const c12 = prop == "C12";
 		// network: sometimes lossy on A's path (bottleneck behind a fast hop)
 		bool const lossy = rng.chance(c12 ? 0.6 : 0.3);
@@ -1011,9 +1012,14 @@ struct LifecycleEngine : Engine
 		for (size_t k = 0; k < N; k += stride) chosen.insert(k);
 		uint64_t interventions = 0;
 		std::set<std::pair<int, int>> kinds_hit;
+		// a scenario in which an intervention leaves something retransmitting for ever runs every sub-execution up to the
+		// step cap: the enumeration of one scenario ends after a fixed number of handler executions in total
+		uint64_t const step_budget = uint64_t(std::max<int64_t>(100000, plan.c("step_budget", 4000000)));
+		uint64_t const steps_at_start = ctx.handlers;
 		for (size_t k : chosen)
 		{
 			if (ctx.violated) break;
+			if (ctx.handlers - steps_at_start > step_budget) { ctx.hit("enumeration_budget_reached"); break; }
 			std::vector<Obj> const& targets = c04 ? cleanw->step_busy[k] : cleanw->step_alive[k];
 			for (Obj const& o : targets)
 			{
